@@ -284,6 +284,9 @@ func replay(kind string, input json.RawMessage) (bool, string) {
 	if kind == "partial" {
 		return e2.ReplayPartial(input)
 	}
+	if kind == "schema" {
+		return e2.ReplaySchema(input)
+	}
 	if kind == "rows" {
 		// re-run the rows half: it reports the (p, s, kind) again if it still fails
 		var in map[string]int
@@ -497,6 +500,8 @@ func run(r *chk.Run) {
 	r.Eval(rowsHalf(r))
 	// DECIMAL columns of different size next to each other in partial row images (E2)
 	e2.RunPartialImages(r)
+	// the same table id announced again with another DECIMAL(p,s) (E2)
+	e2.RunSchemaChange(r)
 	// The live heap of this check is tiny and every decode allocates: with the
 	// default pacing the collector would cycle continuously and serialise the
 	// workers. Collect only when 256 MiB of garbage has accumulated.
